@@ -96,19 +96,60 @@ struct C<std::vector<T>>
   }
 };
 
+// ---- stale destinations: what a destination object holds BEFORE a value is read into it.
+// mode 0: the written value itself (equal size)   mode 1: larger (extra stale elements / characters)
+// mode 2: smaller but never empty.  PODs get stale bytes.  Nested elements are made stale too.
+template <typename T>
+struct Stale
+{
+  static void fill(T &d, const T &, int mode) { std::memset((void *)&d, 0xA5 ^ mode, sizeof(T)); }
+};
+template <>
+struct Stale<std::string>
+{
+  static void fill(std::string &d, const std::string &v, int mode)
+  {
+    if (mode == 0) d = v;
+    else if (mode == 1) d = v + "STALE";
+    else { d = v.substr(0, v.size() / 2); if (d.empty()) d = "s"; }
+  }
+};
+template <typename T>
+struct Stale<std::vector<T>>
+{
+  static void fill(std::vector<T> &d, const std::vector<T> &v, int mode)
+  {
+    d = v;
+    if (mode == 2) d.resize(v.size() / 2);
+    for (size_t i = 0; i < d.size(); ++i) Stale<T>::fill(d[i], v[i], mode);
+    if (mode == 1 || d.empty()) {
+      for (int k = 0; k < (mode == 1 ? 2 : 1); ++k) {
+        T e = T();
+        Stale<T>::fill(e, v.empty() ? T() : v[0], 1);
+        d.push_back(e);
+      }
+    }
+  }
+};
+
 struct Item
 {
   std::string ty;
   virtual ~Item() {}
   virtual void put(WriteStream &w) = 0;
   virtual void getShow(BufferReader &r, std::ostream &o, int variant) = 0;
+  // reading into a destination that already holds something (pre-filled or reused)
+  virtual void prefill(int mode) = 0;
+  virtual void getInto(BufferReader &r, std::ostream &o) = 0;
+  virtual void showValue(std::ostream &o) = 0;   // the value that was written
 };
 
 template <typename T>
 struct VItem : Item
 {
   T v;
-  VItem(TS &ts) { C<T>::parse(ts, v); }
+  T dst;
+  VItem(TS &ts) : dst() { C<T>::parse(ts, v); }
   void put(WriteStream &w) override { w << v; }
   void getShow(BufferReader &r, std::ostream &o, int) override
   {
@@ -116,12 +157,20 @@ struct VItem : Item
     r >> x;
     C<T>::show(x, o);
   }
+  void prefill(int mode) override { Stale<T>::fill(dst, v, mode); }
+  void getInto(BufferReader &r, std::ostream &o) override
+  {
+    r >> dst;
+    C<T>::show(dst, o);
+  }
+  void showValue(std::ostream &o) override { C<T>::show(v, o); }
 };
 
 // const char* overload on the writing side, std::string on the reading side
 struct CSItem : Item
 {
   std::string v;
+  std::string dst;
   CSItem(TS &ts) { C<std::string>::parse(ts, v); }
   void put(WriteStream &w) override { const char *p = v.c_str(); w << p; }
   void getShow(BufferReader &r, std::ostream &o, int) override
@@ -130,6 +179,13 @@ struct CSItem : Item
     r >> x;
     C<std::string>::show(x, o);
   }
+  void prefill(int mode) override { Stale<std::string>::fill(dst, v, mode); }
+  void getInto(BufferReader &r, std::ostream &o) override
+  {
+    r >> dst;
+    C<std::string>::show(dst, o);
+  }
+  void showValue(std::ostream &o) override { C<std::string>::show(v, o); }
 };
 
 // array wrappers: W = 0 OwnedArray, 1 FixedArray, 2 ArrayView, 3 FixedArrayView
@@ -183,6 +239,27 @@ struct AItem : Item
       o << n << " " << hex(dst.get(), bytes);
     }
   }
+  // destination = an OwnedArray that already holds stale bytes; the reading idiom is
+  // count, resize to the byte size, read() into it
+  OwnedArray<uint8_t> dstArr;
+  void prefill(int mode) override
+  {
+    size_t bytes = data.size() * sizeof(E);
+    size_t n = mode == 0 ? bytes : mode == 1 ? bytes + 5 : bytes / 2 + 1;
+    dstArr.resize(0, 0);
+    dstArr.resize(n, (uint8_t)(0xA5 ^ mode));
+  }
+  void getInto(BufferReader &r, std::ostream &o) override
+  {
+    size_t n;
+    r >> n;
+    size_t bytes = n * sizeof(E);
+    if (bytes > r.buffer->size()) throw std::runtime_error("harness: array longer than the stream");
+    dstArr.resize(bytes, 0);
+    r.read(dstArr.data(), bytes);
+    o << n << " " << hex(dstArr.data(), dstArr.size());
+  }
+  void showValue(std::ostream &o) override { o << data.size() << " " << hex(data.data(), data.size() * sizeof(E)); }
 };
 
 typedef std::function<Item *(TS &)> Maker;
@@ -250,6 +327,7 @@ static std::string runT(TS &ts)
     items.back()->ty = ty;
   }
   std::ostringstream out;
+  std::string reuse;
   // ---- encode with the real BufferWriter, size with the real WriteSizeCalculator
   BufferWriter bw;
   try {
@@ -284,6 +362,36 @@ static std::string runT(TS &ts)
       out << " dec=throw@" << k;
     }
     out << " end=" << ends << " cur=" << r.cursor;
+  }
+  // ---- the same stream decoded into PRE-FILLED destinations (stale content of equal / larger / smaller
+  // size, nested elements stale too) and then once more into the SAME destination objects (reuse):
+  // every destination must equal the written value exactly, the stream must be consumed exactly
+  {
+    std::string res;
+    std::shared_ptr<AbstractArray<uint8_t>> buf = bw.buffer;
+    for (int mode = 0; mode < 3 && res.empty(); ++mode) {
+      for (auto &it : items) it->prefill(mode);
+      for (int pass = 0; pass < 2 && res.empty(); ++pass) {
+        BufferReader r(buf);
+        size_t k = 0;
+        try {
+          for (; k < items.size() && res.empty(); ++k) {
+            std::ostringstream got, want;
+            items[k]->getInto(r, got);
+            items[k]->showValue(want);
+            if (got.str() != want.str()) {
+              std::string g = got.str();
+              for (auto &c : g) if (c == ' ') c = ',';
+              res = "stale" + std::to_string(mode) + "/pass" + std::to_string(pass) + "/item" + std::to_string(k) + ":" + g;
+            }
+          }
+          if (res.empty() && !r.end()) res = "stale" + std::to_string(mode) + "/pass" + std::to_string(pass) + "/notAtEnd";
+        } catch (const std::exception &) {
+          res = "stale" + std::to_string(mode) + "/pass" + std::to_string(pass) + "/throw@" + std::to_string(k);
+        }
+      }
+    }
+    reuse = res.empty() ? "ok" : res;
   }
   // ---- every truncation point: exact-size heap copy of the first t bytes, reading must throw
   {
@@ -320,6 +428,7 @@ static std::string runT(TS &ts)
     }
     if (fw.capacity() != cap) out << "!cap";
   }
+  out << " re=" << reuse;
   return out.str();
 }
 
